@@ -46,7 +46,9 @@ ApplyOp(i, x, y) == CASE i = 1 -> x + y [] i = 2 -> x - y [] OTHER -> x * y
 
 (* statements whose outcome the property leaves open (table += table panics into an error today): *)
 (* excluded from the bounded alphabet; trace validation checks only the frame for them             *)
-Unspecified(s, a) == a.a = "OpAssignVar" /\ s[a.n] # Undef /\ s[a.m] # Undef /\ s[a.n].cls = "tbl" /\ s[a.m].cls = "tbl"
+Unspecified(s, a) ==
+  \/ a.a = "OpAssignVar" /\ s[a.n] # Undef /\ s[a.m] # Undef /\ s[a.n].cls = "tbl" /\ s[a.m].cls = "tbl"
+  \/ a.a = "AssignFromPart" /\ a.i = 2 /\ s[a.m] # Undef /\ s[a.m].cls = "mat"    \* m.1 on a MATRIX reads a column: not modelled here
 
 Effect(s, mu, a) ==
   LET n == a.n
@@ -61,6 +63,12 @@ Effect(s, mu, a) ==
     [] a.a = "AssignFromVar" ->   \* n = m
          IF Def(s, n) /\ n \in mu /\ Def(s, m) /\ s[n].cls = s[m].cls /\ s[m].cls \in {"sc", "mat"}
          THEN R(TRUE, [s EXCEPT ![n] = s[m]], mu) ELSE R(FALSE, s, mu)
+    [] a.a = "AssignFromPart" ->  \* n = m.x, n = m.1, n = [m], n = m[1] (a.i = 1..4): the source reads PART of m (or wraps it);
+                                  \* the part is COPIED into n - m keeps its value, whatever n held before
+         LET hasPart == Def(s, m) /\ ((a.i = 1 /\ s[m].cls = "rec") \/ (a.i = 2 /\ s[m].cls = "tup") \/ (a.i \in {3, 4} /\ s[m].cls = "mat"))
+             part == IF a.i = 3 THEN s[m] ELSE Sc(s[m].d[1]) IN
+         IF Def(s, n) /\ n \in mu /\ hasPart /\ s[n].cls = part.cls
+         THEN R(TRUE, [s EXCEPT ![n] = part], mu) ELSE R(FALSE, s, mu)
     [] a.a = "IndexAssign" ->     \* n[i] = 9
          IF Def(s, n) /\ n \in mu /\ s[n].cls = "mat" /\ a.i \in 1..2
          THEN R(TRUE, [s EXCEPT ![n] = V("mat", [s[n].d EXCEPT ![a.i] = 9])], mu) ELSE R(FALSE, s, mu)
